@@ -32,5 +32,27 @@ void pk_get (SNDFILE *sf, PeekState *st, int with_blobs)
 		}
 }
 
+uint64_t pk_meta_hash (SNDFILE *sf)
+{	SF_PRIVATE *psf = (SF_PRIVATE *) sf ; uint64_t h = VL_H0 ;
+	h = vl_hash (&psf->sf, sizeof (psf->sf), h) ;
+	h = vl_hash_u64 (psf->norm_float, h) ; h = vl_hash_u64 (psf->norm_double, h) ; h = vl_hash_u64 (psf->add_clipping, h) ;
+	h = vl_hash_u64 (psf->auto_header, h) ; h = vl_hash_u64 (psf->scale_int_float, h) ; h = vl_hash_u64 (psf->float_int_mult, h) ;
+	h = vl_hash_u64 (psf->strings.flags, h) ; h = vl_hash_u64 (psf->strings.storage_used, h) ;
+	for (int k = 0 ; k < SF_MAX_STRINGS ; k++)
+	{	h = vl_hash_u64 (psf->strings.data [k].type, h) ; h = vl_hash_u64 (psf->strings.data [k].flags, h) ; h = vl_hash_u64 (psf->strings.data [k].offset, h) ; }
+	if (psf->strings.storage) h = vl_hash (psf->strings.storage, psf->strings.storage_used, h) ;
+	if (psf->broadcast_16k) h = vl_hash (psf->broadcast_16k, sizeof (*psf->broadcast_16k), h) ;
+	if (psf->cart_16k) h = vl_hash (psf->cart_16k, sizeof (*psf->cart_16k), h) ;
+	if (psf->cues) h = vl_hash (psf->cues, sizeof (uint32_t) + psf->cues->cue_count * sizeof (psf->cues->cue_points [0]), h) ;
+	if (psf->instrument) h = vl_hash (psf->instrument, sizeof (*psf->instrument), h) ;
+	if (psf->loop_info) h = vl_hash (psf->loop_info, sizeof (*psf->loop_info), h) ;
+	if (psf->channel_map) h = vl_hash (psf->channel_map, psf->sf.channels * sizeof (int), h) ;
+	if (psf->peak_info) h = vl_hash (psf->peak_info->peaks, psf->sf.channels * sizeof (psf->peak_info->peaks [0]), h) ;
+	h = vl_hash_u64 (psf->wchunks.used, h) ; h = vl_hash_u64 (psf->rchunks.used, h) ;
+	h = vl_hash_u64 (psf->read_current, h) ; h = vl_hash_u64 (psf->write_current, h) ; h = vl_hash_u64 (psf->have_written, h) ;
+	h = vl_hash_u64 (psf->dataoffset, h) ; h = vl_hash_u64 (psf->datalength, h) ;
+	return h ;
+}
+
 int pk_max_error (void) { return SFE_MAX_ERROR ; }
 int pk_sf_buffer_len (void) { return SF_BUFFER_LEN ; }
